@@ -2,6 +2,12 @@
 import glob, json, os
 V = os.path.dirname(os.path.dirname(os.path.abspath(__file__)))
 HIST = {
+    "C14-m2": "missed at first (no multi-step history); bounded C14 now computes some cached views, changes max_grid_size, calls clear_cache() and compares with a fresh tokenizer",
+    "C15-m2": "missed at first (identity only compared on unused tokenizers); bounded C15 now compares name / hash / equality before and after tokenizing mazes with the same object",
+    "C18-m2": "missed at first (decorators are outside the prover's subset and a value cached in the instance __dict__ was read as known); the prover now treats attributes stored in __dict__ by earlier calls as unknown, and bounded C18 edits a configuration in place and asks again",
+    "C20-m1": "missed at first (A-int64); bounded C20 now plots true and predicted paths given as int8 coordinates on 12x12 and 11x13",
+    "C11-m1": "patch rebased by hand after fix 0a1bef4 touched the same lines (original kept by the author as patch.orig.diff, not stored)",
+    "C16-m2": "patch rebased by hand after fixes 0018a5f / 87b1902 touched the same function",
     "C01-m2": "missed at first (the proof treats numpy integers as mathematical, A-int64); bounded C01 now runs every generator with an int8 grid_shape on 12x12 and 8x16",
     "C03-m2": "missed at first by the bounded stand-in (option combination not sampled); caught since generate_random_path is under contract (clause C03.allowed_end)",
     "C05-m1": "undecided at first (cfg.n_mazes was not a field of the configuration record); caught since the field is symbolic: the shape obligation of the first array fails",
@@ -15,7 +21,10 @@ for f in sorted(glob.glob(os.path.join(V, "seeded", "*", "meta.json"))):
     for pid, c in m.get("checks_run_against_it", {}).items():
         if c["exit"] == 1 and c["violation_lines"]:
             first = c["first"]
-            how = "proof obligation" if ("post_" in first or "loop" in first or "pre_" in first or "raises_" in first or "no-exception" in first or "range" in first or "nonneg" in first or "filter-" in first) else "bounded stand-in"
+            if "by" in c:
+                how = " + ".join(c["by"])
+            else:
+                how = "proof obligation" if ("post_" in first or "loop" in first or "pre_" in first or "raises_" in first or "no-exception" in first or "range" in first or "nonneg" in first or "filter-" in first) else "bounded stand-in"
             caught.append(f"{pid} ({how})")
     rows.append((m["id"], m["breaks"], m["needs_to_manifest"], ", ".join(caught) or "NOT DETECTED", HIST.get(m["id"], "")))
 with open(os.path.join(V, "seeded", "README.md"), "w") as out:
